@@ -151,12 +151,21 @@ theorem applyOps_dels_some (t n : Nat) : ∀ (dels : List Key) (s : Snap),
         simp only [bne_iff_ne, ne_eq]
         exact fun hh => h1.2 hh.symm
 
-/-- The changeset of a compaction with a non-empty output (`AddRowSet` of the table first, then
-`DeleteRowSet`s of the same table) never hits the `unwrap` in `Snapshot::delete_rowset`, whatever
-the current snapshot is (in particular after a concurrent DROP). -/
-theorem applyOps_compaction_some (s : Snap) (t n : Nat) (rows : List Int) (dels : List Key)
-    (hd : ∀ d ∈ dels, d.1 = t ∧ d ≠ (t, n)) :
-    (applyOps s (.add (t, n) rows :: dels.map Op.del)).isSome = true := by
+theorem dvDels_nil {sp : Snap} (h : sp.dvs = []) (sel : List Key) : dvDels sp sel = [] := by
+  simp only [dvDels, h, List.filter_nil, List.map_nil]
+  induction sel with
+  | nil => rfl
+  | cons _ r ih => simpa using ih
+
+/-- The changeset of a compaction with a non-empty output in the fragment (no DELETE statement,
+so the pinned snapshot `sp` carries no delete vectors and no `DeleteDV` is emitted):
+`AddRowSet` of the table first, then `DeleteRowSet`s of the same table.  It never hits the
+`unwrap` in `Snapshot::delete_rowset`, whatever the current snapshot is (in particular after a
+concurrent DROP). -/
+theorem applyOps_compaction_some (s sp : Snap) (hsp : sp.dvs = []) (t n : Nat) (rows : List Int)
+    (dels : List Key) (hd : ∀ d ∈ dels, d.1 = t ∧ d ≠ (t, n)) :
+    (applyOps s (.add (t, n) rows :: (dels.map Op.del ++ dvDels sp dels))).isSome = true := by
+  rw [dvDels_nil hsp, List.append_nil]
   simp only [applyOps, applyOp]
   exact applyOps_dels_some t n dels _ hd List.mem_cons_self
 
@@ -168,13 +177,13 @@ theorem no_panic_partial {s : Sys} (h : Inv s) :
     (∀ th f, s.k.infl = some (th, f) → f.base = s.k.epoch)
     ∧ (∀ p ∈ s.k.pins, ∀ t, ∃ rows, rowsAt? s.k.pool (s.k.status p.2) t = some rows)
     ∧ (∀ snap key vs, (applyOps snap [.add key vs]).isSome = true)
-    ∧ (∀ (snap : Snap) (t n : Nat) (rows : List Int) (dels : List Key),
+    ∧ (∀ (snap sp : Snap) (t n : Nat) (rows : List Int) (dels : List Key), sp.dvs = [] →
         (∀ d ∈ dels, d.1 = t ∧ d ≠ (t, n)) →
-        (applyOps snap (.add (t, n) rows :: dels.map Op.del)).isSome = true) :=
+        (applyOps snap (.add (t, n) rows :: (dels.map Op.del ++ dvDels sp dels))).isSome = true) :=
   ⟨fun _ _ hi => assert_epoch_unreachable h hi,
    fun _ hp t => (no_missing_file h hp t).1,
    fun _ _ _ => rfl,
-   fun snap t n rows dels hd => applyOps_compaction_some snap t n rows dels hd⟩
+   fun snap sp t n rows dels hsp hd => applyOps_compaction_some snap sp hsp t n rows dels hd⟩
 
 /-! ### what the restriction excludes: schedules of the real implementation -/
 
